@@ -137,7 +137,10 @@ func ruleC08Call(p *Prog, a *Anchors, r *Report, res *ssa.Function) {
 		return
 	}
 	call := calls[0]
-	fn := call.Common().Args[0]
+	fn, _, _ := asReflectCallSite(p, call)
+	if fn == nil {
+		fn = call.Common().Args[0]
+	}
 	// the function's Type()
 	isTypeOfFn := func(v ssa.Value) bool {
 		x, ok := typeOf(p, v)
@@ -296,13 +299,15 @@ func ruleC08Call(p *Prog, a *Anchors, r *Report, res *ssa.Function) {
 	}
 	// (iv) the error result is looked at: values[1].Interface() guarded by NumOut == 2 and its non-nil edge returns it
 	errRet := false
-	for _, b := range res.Blocks {
-		for _, in := range b.Instrs {
-			ta, ok := in.(*ssa.TypeAssert)
-			if !ok || !ta.CommaOk || typeName(ta.AssertedType) != "error" {
-				continue
+	for _, fn2 := range clusterOf(p, res, 2) {
+		for _, b := range fn2.Blocks {
+			for _, in := range b.Instrs {
+				ta, ok := in.(*ssa.TypeAssert)
+				if !ok || !ta.CommaOk || typeName(ta.AssertedType) != "error" {
+					continue
+				}
+				errRet = true
 			}
-			errRet = true
 		}
 	}
 	if errRet {
